@@ -281,6 +281,9 @@ fn any_by_route<'t>(pats: &[&'t str], route: &str) -> Option<wax::Any<'t>> {
 
 pub fn c07(tier: Tier) -> i32 {
     let rep = Report::new("C07", tier, "model_checking");
+    // the combinator family (arity 0..2, nesting depth <= 3, text / compiled / owned leaves): union law
+    let trees = crate::props_total::combinator_laws(&rep, tier, "C07");
+    rep.add("combinator_trees_judged", trees);
     let mut opts = SpaceOpts::standard(tier);
     if tier == Tier::Quick {
         opts.subst_pairs = 0;
